@@ -72,31 +72,34 @@ CONFIG = dict(
         "(publish, dispatch, send, take, snap, pick, call, finish, exit, register, unregister); the shape of those "
         "sections is re-extracted from the source on every run (Generated/Bus.lean, C20_facts)",
         "'before unregistration began' is proved for listeners that stay registered (C20_delivery_partial); an "
-        "asynchronous bus drops what is still queued when the listener leaves (C20_delivery_counterexample)",
-        "publication order at a listener is proved for executions in which no callback is entered for a listener removed "
-        "in the meantime (C20_order_partial, C20_order_prompt); the window between the registration check under the "
-        "mutex and the callback entry allows an overtake after leave+join (C20_order_counterexample) - not reproducible "
-        "by the harness, a recorded occurrence would be reported as violated:out-of-order-delivery",
+        "asynchronous bus drops what is still queued when the listener leaves (C20_delivery_counterexample, replayed on "
+        "the code by corpus/C20/unregister-drops-queued.jsonl)",
+        "a callback may be entered after Unregister returned when the listener had already been chosen under the mutex "
+        "(message published before the unregistration returned; allowed by the statement, corpus/C20/stale-callback.jsonl)",
         "conservation (clause E of admits) only below the slow-consumer threshold: runs in which the loopback client "
         "logged 'Slow consumer' are judged on the safety clauses only",
+        "a listener object re-registered on a subject may be handed a message published between its unregistration and "
+        "its re-registration (published before the later registration completed: not constrained by the statement)",
         "real NATS server, Close() of the whole bus and failing Subscribe calls are not modelled",
     ],
 )
 
 MANIFEST = dict(
-    text="Machine-checked Lean 4 theorems about a small-step model of the event bus (publication log, loopback FIFO "
-         "with dispatcher snapshot + non-blocking sends, bounded channel and receiver goroutine per subject, listener "
-         "iteration over a snapshot with the mutex released around callbacks, register/unregister with last-one-closes), "
-         "for every interleaving of its atomic actions: no duplicate delivery, every delivery backed by a registration on "
-         "that subject and published before any later unregistration returned, per-subject publication order (for "
-         "executions without a stale callback; counter-example otherwise), conservation and delivery at quiescence for "
-         "listeners that stay registered, publishers/registrations/dispatcher never wait, and every recorded history is "
-         "accepted by the executable spec `admits` (monotone under widening of call intervals). Tied to the code by "
-         "extracted locking skeletons/constants and by running the real asyncEventsNats + LoopbackNatsClient: deterministic "
-         "schedules compared step by step with the model, concurrent goroutine runs judged by `admits`.",
-    note="Trusted: Lean kernel, extractor, harness, Go runtime semantics of mutex/channel. Partial: order needs 'no stale "
-         "callback' (window between check and callback entry); messages queued when a listener unregisters are lost for it. "
-         "Defect found and fixed: duplicate delivery when a listener re-registers during the iteration (6a5372c).",
+    text="Machine-checked Lean 4 theorems about a small-step model of the event bus (publication log, loopback FIFO with "
+         "dispatcher snapshot + non-blocking sends, bounded channel and receiver goroutine per subject, listener iteration "
+         "over a snapshot with the mutex released around callbacks, register/unregister where the last one closes the "
+         "subscriber and a new subscriber waits for the closed one), for every interleaving of its atomic actions: no "
+         "duplicate delivery, every delivery backed by a registration on that subject and published before any later "
+         "unregistration returned, per-listener per-subject publication order, conservation and delivery at quiescence for "
+         "listeners that stay registered (below the slow-consumer bound), publishers/registrations/dispatcher never wait, "
+         "no deadlock, and every recorded history is accepted by the executable spec `admits` (monotone under widening of "
+         "call intervals). Tied to the code by extracted locking skeletons/constants and by running the real "
+         "asyncEventsNats + LoopbackNatsClient: deterministic schedules compared step by step with the model, concurrent "
+         "goroutine runs judged by `admits`.",
+    note="Trusted: Lean kernel, extractor, harness, Go runtime semantics of mutex/channel/select. Partial: messages still "
+         "queued when a listener unregisters are lost for it (proved counter-example). Two defects found by the harness and "
+         "fixed in /repo: duplicate delivery when a listener re-registers during the iteration (6a5372c); out-of-order "
+         "delivery after leave+join through a second subscriber (a646ba6).",
     technique="Lean 4 proof (inductive invariants of a small-step model, all interleavings) + regenerated facts + "
               "differential correspondence / trace validation",
 )
